@@ -451,7 +451,7 @@ fn model_apply(m: &mut Vec<u32>, op: &Op, rev: bool) -> MRes {
             MRes::Unit
         }
         Op::DedupBy(k) => {
-            m.dedup_by(|a, b| *a % k == *b % k);
+            m.dedup_by(|a, b| dedup_rel(*a, *b, *k));
             MRes::Unit
         }
         Op::SplitOff(r) => match resolve(r, len) {
@@ -1161,6 +1161,11 @@ fn run_shared<'a: 'b, 'b, T: Elem + Clone + PartialEq>(st: &mut St, h: &Hdr, a: 
             let _ = a.try_alloc_slice_fill_with::<u8>(1 + r.b(5) as usize % 50, || 0xEE);
             continue;
         }
+        if (meta == 2 || meta == 3) && r.b(5) % 6 == 5 {
+            let l = lives.remove(which);
+            map_cross_step::<T>(st, l, r.b(6), r.b(7), &lives);
+            continue;
+        }
         if meta == 2 || meta == 3 {
             let l = lives.remove(which);
             let how = match r.b(5) % 6 {
@@ -1347,6 +1352,101 @@ fn run_shared<'a: 'b, 'b, T: Elem + Clone + PartialEq>(st: &mut St, h: &Hdr, a: 
             if T::ZST {
                 st.zst_leaked += 1 << 20;
             }
+        }
+    }
+}
+
+/// `map` / `map_in_place` to an element type of another size (named in C06, C08 and C16): the vector is consumed,
+/// the result is inspected, pushed into and dropped inside the shim. Oracles: contents = the mapped model in order,
+/// capacity as documented (`cap * size_of::<T>() / size_of::<U>()` in place, unlimited for zero-sized targets, never
+/// below the length), the re-typed buffer stays inside the source buffer, the pushes that fit the reported capacity do
+/// not move the buffer, no sibling changes, and (registry) every source and target value is dropped exactly once -
+/// also when the closure panics part way through.
+fn map_cross_step<'b, T: Elem + Clone + PartialEq>(st: &mut St, l: Live<'b, T>, sel: u8, fill: u8, lives: &[Live<'b, T>]) {
+    let pid = if st.mix == CMix::C16 { "C16" } else { "C08" };
+    let (kind, len0, cap0, ptr0) = (l.v.kind(), l.v.len(), l.v.capacity(), l.v.ptr());
+    let tsz = std::mem::size_of::<T>();
+    let what = format!("map {kind:?}<{}> len {len0} cap {cap0} @ {ptr0:#x} (target {} api {} fill {fill})", T::NAME, sel % 4, sel / 4 % 2);
+    st.note(|| what.clone());
+    let m = l.m.clone();
+    let fired_before = with_reg(|r| r.fired.is_some());
+    let ids0 = l.v.snapshot();
+    let ids_before_op = with_reg(|r| r.dropped.len()) as u32;
+    let res = catch_unwind(AssertUnwindSafe(|| l.v.map_cross(sel, fill)));
+    let fired_now = !fired_before && with_reg(|r| r.fired.is_some());
+    st.ops += 1;
+    st.mutating += 1;
+    st.mixh(0x3a9 ^ (sel as u64) << 12 ^ (len0 as u64) << 24 ^ (kind as u64) << 40);
+    match res {
+        Ok(None) => {}
+        Ok(Some(o)) if o.alloc_err => st.class("map_alloc_err"),
+        Ok(Some(o)) => {
+            st.class("map_cross");
+            let what = format!("{what} -> {} <{}> len {} cap {} @ {:#x}, {} pushed", o.api, o.u_name, o.len, o.cap, o.ptr, o.pushed);
+            st.note(|| what.clone());
+            let exp: Vec<u32> = m.iter().map(|x| if o.u_zst { 0 } else { x.wrapping_add(1) }).collect();
+            if !fired_now {
+                if o.mapped != exp {
+                    st.fail(&format!("{pid}/map-contents"), format!("{what}: mapped contents {:?}, expected {exp:?}", o.mapped));
+                }
+                let mut exp_fill = exp.clone();
+                exp_fill.extend(std::iter::repeat(if o.u_zst { 0 } else { 99 }).take(o.pushed));
+                if o.after_fill != exp_fill {
+                    st.fail(&format!("{pid}/map-contents"), format!("{what}: contents after the pushes {:?}, expected {exp_fill:?}", o.after_fill));
+                }
+                if o.cap < o.len || (o.u_zst && kind != KindId::Boxed && o.cap != usize::MAX) {
+                    st.fail("C08/map-capacity", format!("{what}: capacity below the length, or limited for a zero-sized element type"));
+                }
+                if o.in_place && !o.u_zst && !T::ZST {
+                    st.class("map_in_place_resized");
+                    let want = if kind == KindId::Boxed { len0 } else { cap0 * tsz / o.u_size };
+                    if o.cap != want && kind != KindId::Boxed {
+                        st.fail("C08/map-capacity", format!("{what}: capacity {} after an in-place map, documented {want} (= {cap0} * {tsz} / {})", o.cap, o.u_size));
+                    }
+                    if cap0 > 0 && (o.ptr != ptr0 || o.cap.saturating_mul(o.u_size) > cap0 * tsz) {
+                        st.fail("C16/parts-disjoint", format!("{what}: the re-typed buffer {:#x}..{:#x} is not inside the source buffer {ptr0:#x}..{:#x}", o.ptr, o.ptr + o.cap.saturating_mul(o.u_size), ptr0 + cap0 * tsz));
+                        st.fail("C08/map-capacity", format!("{what}: the re-typed buffer is not inside the source buffer"));
+                    }
+                }
+                if !o.u_zst && o.pushed > 0 && o.len + o.pushed <= o.cap && o.ptr_after_fill != o.ptr {
+                    st.fail("C08/realloc-within-capacity", format!("{what}: the buffer moved {:#x} -> {:#x} although the pushes fit the reported capacity", o.ptr, o.ptr_after_fill));
+                }
+                if o.len + o.pushed > o.cap {
+                    st.realloc_or_range = true;
+                }
+            } else {
+                st.injected_seen = true;
+            }
+        }
+        Err(p) => {
+            if !(fired_now && p.is::<Marker>()) {
+                st.fail("panic/op", format!("{what}: unexpected panic {}", panic_message(&p)));
+            } else {
+                st.injected_seen = true;
+                st.class("panic_injected");
+                st.class("panic_in_map");
+                if len0 >= 2 {
+                    st.class("panic_injected_len2");
+                }
+                if with_reg(|r| r.fired) == Some("drop") {
+                    for (id, _) in &ids0 {
+                        st.leak_ok.insert(*id);
+                    }
+                    let now = with_reg(|r| r.dropped.len()) as u32;
+                    for id in ids_before_op + 1..=now {
+                        st.leak_ok.insert(id);
+                    }
+                    st.zst_leaked += ids0.len() as i64 + 128;
+                }
+            }
+        }
+    }
+    check_registry(st, &what);
+    for (i, o) in lives.iter().enumerate() {
+        let got: Vec<u32> = o.v.snapshot().iter().map(|(_, v)| *v).collect();
+        if got != o.m {
+            st.fail("C16/sibling-changed", format!("after {what}: vector {i} ({:?}) changed {:?} -> {got:?}", o.v.kind(), o.m));
+            break;
         }
     }
 }
@@ -1898,6 +1998,9 @@ fn run_mut<'a, T: Elem + Clone + PartialEq>(st: &mut St, h: &Hdr, arena: &mut (d
                 st.partial_drop = true;
                 st.class("partial_iterator");
                 check_registry(st, &what);
+            } else if r0.b(8) % 5 == 1 && !rev && !st.stop {
+                // consumed by a size-changing map_in_place; the result is pushed into and dropped (nothing finalised)
+                map_cross_step::<T>(st, l, r0.b(9), r0.b(10), &[]);
             } else if finalise && !st.stop {
                 let (rest, _) = l.v.consume(Consume::IntoBoxedSlice);
                 if let Some(b) = rest {
